@@ -98,4 +98,46 @@ def DecFloat.render : DecFloat → List Char
   | .exp ip x sfx => ip ++ x.render ++ sfx.toList
   | .frac ip fp x sfx => ip ++ '.' :: fp ++ ExpPart.renderOpt x ++ sfx.toList
 
+/-! ### hexadecimal floating constants (C11 §6.4.4.2) -/
+
+/-- binary exponent part `[pP][+-]?D+` (mandatory in a hexadecimal floating constant) -/
+structure BinExp where
+  p : Char
+  sign : Option Char
+  digits : List Char
+deriving Repr
+
+def BinExp.WF (x : BinExp) : Prop :=
+  (x.p = 'p' ∨ x.p = 'P') ∧ (∀ s, x.sign = some s → s = '+' ∨ s = '-') ∧
+  x.digits ≠ [] ∧ ∀ c ∈ x.digits, c ∈ decDigits
+
+def BinExp.render (x : BinExp) : List Char := x.p :: (x.sign.toList ++ x.digits)
+
+/-- `0[xX] ( H+ | H* . H+ | H+ . ) BinExp FSuf`: `frac = none` is the form without a dot -/
+structure HexFloat where
+  x : Char
+  ip : List Char
+  frac : Option (List Char)
+  exp : BinExp
+  sfx : String
+deriving Repr
+
+/-- the fraction part as text -/
+def fracText : Option (List Char) → List Char
+  | none => []
+  | some fp => '.' :: fp
+
+/-- `H+` without a dot, or with a dot and at least one digit on one side -/
+def fracOK (ip : List Char) : Option (List Char) → Prop
+  | none => ip ≠ []
+  | some fp => (∀ c ∈ fp, c ∈ hexDigits) ∧ (ip ≠ [] ∨ fp ≠ [])
+
+def HexFloat.WF (k : HexFloat) : Prop :=
+  (k.x = 'x' ∨ k.x = 'X') ∧ (∀ c ∈ k.ip, c ∈ hexDigits) ∧ fracOK k.ip k.frac ∧ k.exp.WF ∧ k.sfx ∈ floatSuffixes
+
+def HexFloat.mant (k : HexFloat) : List Char := k.ip ++ fracText k.frac
+
+def HexFloat.render (k : HexFloat) : List Char :=
+  '0' :: k.x :: (k.mant ++ (k.exp.render ++ k.sfx.toList))
+
 end Norm.Spec
